@@ -13,6 +13,14 @@ def _sig(prop):
                 flavour = e.get("flavour", "")
             if e.get("i", 0) < at and e.get("op") == "RemoveNode":
                 removed_before = True
+        if op == "Imported" and flavour == "tan":
+            # structural signature of the recorded finding: Tan, the power was lost inside ImportSnapshot (the
+            # Import event just before is marked crashed) and the replica has nothing at all afterwards
+            cur = [e for e in lines if e.get("i") == at]
+            prev = [e for e in lines if e.get("i") == at - 1]
+            if cur and prev and prev[0].get("op") == "Import" and prev[0].get("crashed") and \
+                    all(p.get("rserr") == "nosavedlog" for p in cur[0].get("panels", [])):
+                return "C10:tan:ImportSnapshot-interrupted-by-power-loss-leaves-nothing"
         if flavour == "tanmux" and removed_before:
             # structural signature of the recorded finding: multiplexed Tan + an earlier RemoveNodeData
             return "C09:tanmux:RemoveNodeData-deletes-log-files-shared-with-other-replicas"
